@@ -57,9 +57,15 @@ def load(modname, overrides=None, np=NP, convert_arrays=True):
     if np is not None and "np" in ns:
         ns["np"] = np
     if convert_arrays:
+        from .core import SV
+
         for k, v in list(ns.items()):
             if type(v) is _np.ndarray and not k.startswith("__"):
                 ns[k] = SymArray(v)
+            elif type(v) is float and not k.startswith("__") and np is not None:
+                # module-level float constants take part in exact (REAL-mode) arithmetic:
+                # `1.0 / gmr` must not be rounded by the Python float division
+                ns[k] = SV.of(v)
     for k, v in (overrides or {}).items():
         ns[k] = v
     return ns
